@@ -253,8 +253,14 @@ def build_library(scene: Scene, intensities: np.ndarray, *, com_fit="no_shift", 
         )
         pdset = PtychographyDatasetRaster.from_dataset4dstem(d4, detector_mask=detector_mask, verbose=0, learn_descan=learn_descan, learn_scan_positions=learn_scan_positions)
         for earlier in dset_pre:
-            # history: earlier preprocessing passes on the same dataset object (e.g. trying another descan fit first) must not matter
+            # history: earlier preprocessing passes on the same dataset object (e.g. trying another descan fit first) must not matter,
+            # nor must what was read / which loss targets were built in between (lazily built values must not survive a new pass)
             pdset.preprocess(com_fit_function=earlier, force_com_rotation=0, force_com_transpose=False, plot_rotation=False, plot_com=False, vectorized=vectorized, probe_energy=scene.energy)
+            for name in ("centered_intensities", "centered_amplitudes", "intensities", "amplitudes", "com_measured", "com_fit", "mean_diffraction_intensity"):
+                getattr(pdset, name, None)
+            for lt in ("l2_intensity", "l1_amplitude", "poisson"):
+                pdset._set_targets(lt)
+                pdset.targets
         pdset.preprocess(com_fit_function=com_fit, force_com_rotation=0, force_com_transpose=False, plot_rotation=False, plot_com=False, vectorized=vectorized, probe_energy=scene.energy)
         thick = list(scene.thicknesses) if scene.num_slices > 1 else None
         if obj_init == "uniform":
@@ -282,7 +288,7 @@ def library_loss(pt, loss_type="l2_amplitude", batch_size=None, key="object"):
     return float(pt.iter_losses[-1])
 
 
-def chain_loss(pt, loss_type="l2_amplitude", indices=None, with_grad=False):
+def chain_loss(pt, loss_type="l2_amplitude", indices=None, with_grad=False, audit=None):
     """Loss through the explicit chain named in the property's observe_at; optionally returns gradients w.r.t. raw object/probe."""
     import torch
 
@@ -300,6 +306,21 @@ def chain_loss(pt, loss_type="l2_amplitude", indices=None, with_grad=False):
         patch_indices, _pos, frac, descan = pt.dset.forward(idx, pt.obj_padding_px)
         shifted = pt.probe_model.forward(frac)
         patches = pt.obj_model.forward(patch_indices)
+        if audit is not None:
+            # the stages of the chain are functions of their arguments: they must not modify them, and calling a stage again with
+            # the same tensors must give the same result (the caller may keep and reuse the placed probes / object patches)
+            s0, p0 = shifted.detach().clone(), patches.detach().clone()
+            _pp1, ov1 = pt.forward_operator(patches, shifted, descan)
+            ov1 = ov1.detach().clone()
+            audit["shifted_probes_modified"] = float((shifted.detach() - s0).abs().max() / s0.abs().max().clamp_min(1e-30))
+            audit["object_patches_modified"] = float((patches.detach() - p0).abs().max() / p0.abs().max().clamp_min(1e-30))
+            o0 = ov1.clone()
+            pr1 = pt.detector_model.forward(ov1)
+            audit["exit_waves_modified"] = float((ov1 - o0).abs().max() / o0.abs().max().clamp_min(1e-30))
+            _pp2, ov2 = pt.forward_operator(patches, shifted, descan)
+            audit["forward_operator_not_repeatable"] = float((ov2.detach() - o0).abs().max() / o0.abs().max().clamp_min(1e-30))
+            pr2 = pt.detector_model.forward(ov2)
+            audit["detector_not_repeatable"] = float((pr2.detach() - pr1.detach()).abs().max() / pr1.detach().abs().max().clamp_min(1e-30))
         _pp, overlap = pt.forward_operator(patches, shifted, descan)
         pred = pt.detector_model.forward(overlap)
         loss, _t = pt.error_estimate(pred, idx, loss_type=loss_type)
